@@ -22,6 +22,8 @@ import JanetModel.Lib.BufPushCProofs
 import JanetModel.Lib.StrReplCProofs
 import JanetModel.Lib.Boot3Proofs
 import JanetModel.Lib.Boot4Proofs
+import JanetModel.Lib.Boot5Proofs
+import JanetModel.Lib.MiscCProofs
 namespace JanetModel.Props.C17
 open JanetModel.Lib JanetModel.Gen.Lib
 
@@ -478,5 +480,14 @@ theorem boot_partition_distinct {α : Type} [BEq α] [LawfulBEq α] (n : Nat) (h
   ⟨Boot.partition_eq_spec n hn ind, Boot.distinct_eq_spec ind⟩
 
 example : Boot.partition 2 [1, 2, 3] = .ok [[1, 2], [3]] ∧ Boot.distinct [1, 1, 2] = .ok [1, 2] := by decide
+
+/-- `(map f ind ind0 ind1)` (map-template branch `map-n 2`), `array/fill`, `string/from-bytes` (raises at the first
+    non-int32 argument) -/
+theorem mirror_map3_fill_frombytes {α β γ δ : Type} (f : α → β → γ → δ) (ind : List α) (ind0 : List β) (ind1 : List γ)
+    (x : α) (argv : List Int) :
+    Boot.map3 f ind ind0 ind1 = .ok (List.zipWith (fun (p : α × β) z => f p.1 p.2 z) (List.zip ind ind0) ind1) ∧
+    ArrC.fill ind x = .ok (arrayFill ind x) ∧
+    StrC.fromBytes argv = R.ofOption ((argv.mapM getInt32).map (fun l => l.map toByte)) :=
+  ⟨Boot.map3_eq_spec f ind ind0 ind1, ArrC.fill_eq_spec ind x, StrC.fromBytes_eq_spec argv⟩
 
 end JanetModel.Props.C17
